@@ -415,6 +415,8 @@ impl<'conn> FolderEntity<'conn, Transaction<'conn>> {
                     secret_rows.as_slice(),
                 )?;
                 tx.commit()?;
+                #[cfg(sos_verif)]
+                sos_core::verif::crash_point("db.folder.upsert.after-commit");
                 Ok::<_, Error>((folder_id, secret_ids))
             })
             .await
@@ -449,6 +451,8 @@ impl<'conn> FolderEntity<'conn, Transaction<'conn>> {
                 }
                 folder.update_folder(&folder_id, &folder_update_row)?;
                 tx.commit()?;
+                #[cfg(sos_verif)]
+                sos_core::verif::crash_point("db.folder.replace-secrets.after-commit");
                 Ok(())
             })
             .await
